@@ -17,7 +17,7 @@ RULE = ("Hypothesis draws a network recipe (1-3 voltage levels, lines incl. para
         "tap changers and 0/30/150/180 degree shifts, nominal-ratio trafos, 3W trafos, symmetric impedances, impedance and "
         "fusing bus-bus switches, open line/trafo switches, ext_grids / slack gens / PV gens / sgens / loads / shunts / "
         "storages / motors / wards, out-of-service buses and elements, an island without slack, permuted custom bus labels) "
-        "and conversion options (init flat/results, check_connectivity, switch_rx_ratio). The original is solved with "
+        "and conversion options (init flat/results, switch_rx_ratio). The original is solved with "
         "trafo_model='pi', angles on; then net2 = from_ppc(to_ppc(net)) and net3 = from_mpc(to_mpc(net, file.mat)) are solved "
         "with the options validate_from_ppc documents (pi, angles). Oracle (round trip): every supplied bus b of the original "
         "has the counterpart net._pd2ppc_lookups['bus'][b] (never the label) with equal vm_pu / va_degree; per reference node "
@@ -35,7 +35,7 @@ _KW = dict(
     bus_kinds={"load": 5, "sgen": 3, "gen": 3, "storage": 1, "shunt": 2, "ward": 1, "xward": 0, "motor": 1,
                "asymmetric_load": 0, "asymmetric_sgen": 0},
     branch_kinds={"line": 8, "impedance": 1, "bb": 2},
-    oos=0.06, open_prob=0.4, dcline=False, leakage=False, custom_index=True, noslack_island=True)
+    oos=0.05, open_prob=0.25, dcline=False, leakage=False, custom_index=True, noslack_island=True)
 PROFILE = netgen.profile(line_g=False, **_KW)      # majority: avoids the known line-conductance shape by construction
 PROFILE_G = netgen.profile(line_g=True, **_KW)     # minority: lines with g_us_per_km
 
@@ -55,6 +55,11 @@ def in_scope(recipe):
 def _case(draw, tier):
     with_g = draw(st.integers(0, 5)) == 0
     recipe = in_scope(draw(netgen.grid(PROFILE_G if with_g else PROFILE)))
+    # netgen draws out-of-service buses with st.floats, which Hypothesis biases towards 0.0: most buses would be out of
+    # service most of the time; keep that shape for a minority only (out-of-service elements stay in every case)
+    if draw(st.integers(0, 3)) != 0:
+        for b in recipe["buses"]:
+            b.pop("in_service", None)
     # make nominal-ratio transformers (ppc TAP == 1, SHIFT == 0: the converter's third branch class) frequent enough
     if draw(st.integers(0, 3)) == 0:
         for e in recipe["el"]:
@@ -65,7 +70,6 @@ def _case(draw, tier):
                 for k in [k for k in e if k.startswith("tap_")]:
                     del e[k]
     opt = {"init": draw(st.sampled_from(["flat", "flat", "results"])),
-           "check_connectivity": draw(st.sampled_from([True, True, True, False])),
            "switch_rx_ratio": draw(st.sampled_from([2, 2, 2, 0.5, 10])),
            "no_branch_g_mat": draw(st.integers(0, 9)) < 7}
     return {"recipe": recipe, "opt": opt}
@@ -79,14 +83,22 @@ def run_orig(net, opt, sn):
     import pandapower as pp
     with silence():
         pp.runpp(net, trafo_model="pi", calculate_voltage_angles=True, voltage_depend_loads=False, init="flat",
-                 switch_rx_ratio=opt["switch_rx_ratio"], check_connectivity=opt["check_connectivity"],
+                 switch_rx_ratio=opt["switch_rx_ratio"], check_connectivity=True,
                  tolerance_mva=pf_tol(sn), max_iteration=40)
 
 
-def run_conv(net, sn):
+def run_conv(net, sn, start=None):
+    """power flow of a converted net with the options validate_from_ppc documents; start = (vm, va) per bus of the converted
+    net: start from that operating point instead of a flat start"""
     import pandapower as pp
+    import pandas as pd
+    init = "flat"
+    if start is not None:
+        net["res_bus"] = pd.DataFrame({"vm_pu": start[0], "va_degree": start[1], "p_mw": float("nan"), "q_mvar": float("nan")},
+                                      index=net.bus.index)
+        init = "results"
     with silence():
-        pp.runpp(net, trafo_model="pi", calculate_voltage_angles=True, init="flat", tolerance_mva=pf_tol(sn), max_iteration=40)
+        pp.runpp(net, trafo_model="pi", calculate_voltage_angles=True, init=init, tolerance_mva=pf_tol(sn), max_iteration=40)
 
 
 def _nz(x):
@@ -208,6 +220,7 @@ class Outcome:
     def __init__(self):
         self.status, self.skipped, self.fails = "ok", None, []
         self.n_cmp, self.mapped, self.feats, self.n_ppci, self.net = 0, {}, set(), 0, None
+        self.gclasses, self.other_solution = [], False
 
 
 def evaluate(recipe, opt, path, solved=None):
@@ -233,10 +246,12 @@ def evaluate(recipe, opt, path, solved=None):
         if not net.converged:
             out.status, out.skipped = "skipped", "not-converged"
             return out
+        # solution of the original in ppc numbering (in-service ppc buses first, incl. auxiliary buses): columns VM, VA
+        net["_c21_solution"] = net._ppc["bus"][:, [7, 8]].copy()
     out.net = net
     out.feats = features(net)
     cls = "+".join(sorted(out.feats)) or "plain"
-    kw = dict(calculate_voltage_angles=True, trafo_model="pi", init=opt["init"], check_connectivity=opt["check_connectivity"],
+    kw = dict(calculate_voltage_angles=True, trafo_model="pi", init=opt["init"], check_connectivity=True,
               switch_rx_ratio=opt["switch_rx_ratio"])
     tmp = None
     shapes = {}
@@ -267,23 +282,65 @@ def evaluate(recipe, opt, path, solved=None):
         if tmp:
             shutil.rmtree(tmp, ignore_errors=True)
     out.n_ppci = shapes["bus"]
-    try:
-        run_conv(net2, sn)
-    except Exception as e:
-        kind, what = pf_outcome(e)
-        out.status = "failed"
-        if kind == "skip" and what == "not-converged":
-            out.fails.append(("converted-net-not-converged/%s" % cls, {}))
-        else:
-            out.fails.append(("converted-net-pf/%s" % what, dict(error=repr(e)[:300])))
-        return out
-    fails, out.n_cmp, out.mapped = compare(net, lookup, out.n_ppci, net2, sn)
-    out.fails = [("%s/%s" % (k, cls), d) for k, d in fails]
+    out.gclasses = g_classes(ppc if path == "ppc" else mpc["mpc"])
+    sol = net["_c21_solution"][:out.n_ppci]
+    first = None
+    for start in (None, (sol[:, 0], sol[:, 1])):
+        # a flat start may reach another solution of the same equations (seen: ~0 p.u. at the auxiliary bus behind an open
+        # transformer switch) -> before a difference counts, the converted net is started from the original's operating point
+        if start is not None and (len(sol) != len(net2.bus) or list(net2.bus.index) != list(range(out.n_ppci))):
+            break
+        try:
+            run_conv(net2, sn, start)
+        except Exception as e:
+            kind, what = pf_outcome(e)
+            if kind == "skip" and what == "not-converged":
+                fails = [("converted-net-not-converged", {})]
+            else:
+                fails = [("converted-net-pf/%s" % what, dict(error=repr(e)[:300]))]
+            first = first or fails
+            continue
+        fails, out.n_cmp, out.mapped = compare(net, lookup, out.n_ppci, net2, sn)
+        if not fails:
+            out.other_solution = start is not None
+            first = None
+            break
+        first = first or fails
+    if first:
+        out.fails = [("%s/%s" % (k, cls), d) for k, d in first]
+        if any(k.startswith("converted-net") for k, _ in first):
+            out.status = "failed"
     return out
 
 
+def g_classes(ppc):
+    """which of from_ppc's branch classes (line: equal base voltages, ratio 1, no shift; trafo: ratio or shift; impedance:
+    the rest) carry a branch conductance in the converted case - a fact about the failing observation"""
+    import numpy as np
+    g = ppc.get("branch_g")
+    if g is None or not len(ppc["branch"]):
+        return []
+    br, bus = ppc["branch"], ppc["bus"]
+    g = np.asarray(g).reshape(-1)
+    pos = {int(b): i for i, b in enumerate(bus[:, 0])}
+    out = set()
+    for k in range(br.shape[0]):
+        if g[k] == 0:
+            continue
+        vf, vt = bus[pos[int(br[k, 0])], 9], bus[pos[int(br[k, 1])], 9]
+        tap, shift = br[k, 8], br[k, 9]
+        if tap not in (0, 1) or shift != 0:
+            out.add("trafo")
+        elif vf == vt:
+            out.add("line")
+        else:
+            out.add("impedance")
+    return sorted(out)
+
+
 def _has_line_g(r):
-    return any(e["t"] == "line" and e.get("g_us_per_km", 0.0) for e in r["el"])
+    """conductance of a non-transformer branch: line g_us_per_km, impedance gf_pu"""
+    return any((e["t"] == "line" and e.get("g_us_per_km", 0.0)) or (e["t"] == "impedance" and e.get("gf_pu", 0.0)) for e in r["el"])
 
 
 def _no_line_g(r):
@@ -291,6 +348,9 @@ def _no_line_g(r):
     for e in r["el"]:
         if e["t"] == "line":
             e.pop("g_us_per_km", None)
+        elif e["t"] == "impedance":
+            e.pop("gf_pu", None)
+            e.pop("gt_pu", None)
     return r
 
 
@@ -306,9 +366,17 @@ def _no_pfe(r):
     return r
 
 
+def _has_g(r):
+    return _has_line_g(r) or _has_pfe(r)
+
+
+def _no_g(r):
+    return _no_pfe(_no_line_g(r))
+
+
 # input features that are removed one after the other from a failing case: a feature whose removal repairs the round trip
 # names the root cause class of the failure (facts about the input and the failing observation only)
-SUSPECTS = [("line-g", _has_line_g, _no_line_g), ("trafo-pfe", _has_pfe, _no_pfe)]
+SUSPECTS = [("branch-g", _has_g, _no_g)]
 
 
 def classify(recipe, opt, path, out):
@@ -316,30 +384,16 @@ def classify(recipe, opt, path, out):
     if not out.fails:
         return []
     plain = [("%s/%s" % (path, k), d) for k, d in out.fails]
-    if out.status != "ok":
+    if out.net is None or any(k.startswith("crash") for k, _ in out.fails):
         return plain
-    removed, r, repaired = [], recipe, False
     for name, has, strip in SUSPECTS:
-        if has(r):
-            r = strip(r)
-            removed.append(name)
-            o = evaluate(r, opt, path)
+        if has(recipe):
+            o = evaluate(strip(recipe), opt, path)
             if o.status == "ok" and not o.fails:
-                repaired = True
-                break
-    if not repaired:
-        return plain
-    needed = [removed[-1]]
-    for name in removed[:-1]:
-        r = recipe
-        for n2, has, strip in SUSPECTS:
-            if n2 in removed and n2 != name:
-                r = strip(r)
-        o = evaluate(r, opt, path)
-        if not (o.status == "ok" and not o.fails):
-            needed.append(name)
-    kinds = sorted({k.split("/")[0] for k, _ in out.fails})
-    return [("%s/results-differ/%s" % (path, n), dict(observed=kinds, first=out.fails[0][1])) for n in sorted(needed)]
+                kinds = sorted({k.split("/")[0] for k, _ in out.fails})
+                extra = "@" + "+".join(out.gclasses) if name == "branch-g" else ""
+                return [("%s/results-differ/%s%s" % (path, name, extra), dict(observed=kinds, first=out.fails[0][1]))]
+    return plain
 
 
 def check(case):
@@ -373,16 +427,18 @@ def check(case):
         if len(ref_nodes(net)[1]) > 1:
             res.label("multi-reference")
         if _has_line_g(recipe):
-            res.label("line-g")
+            res.label("branch-g")
         if _has_pfe(recipe):
             res.label("trafo-pfe")
+        if a.other_solution:
+            res.label("flat-start-reaches-other-solution")
         nt = a.status == "ok" and a.n_cmp >= 2 and (bool(a.feats & {"off-nominal", "shift", "phase-tap"}) or n_sw_open > 0 or renumbered)
     # MATPOWER file path. The case format has no branch conductance column -> mostly run on the variant of the network
     # without line conductance / iron losses (opt.no_branch_g_mat), a minority keeps them
     recipe_m, solved = recipe, net
     if _has_line_g(recipe) or _has_pfe(recipe):
         if opt["no_branch_g_mat"]:
-            recipe_m, solved = _no_pfe(_no_line_g(recipe)), None
+            recipe_m, solved = _no_g(recipe), None
         else:
             res.label("mpc:with-branch-g")
     if solved is not None or recipe_m is not recipe:
